@@ -645,6 +645,10 @@ func (x *Exec) evUnary(st *State, e *ast.UnaryExpr) Val {
 		x.vc.declFun("bit_not", []string{"Int"}, "Int")
 		return Val{T: fmt.Sprintf("(bit_not %s)", v.T), Sort: v.Sort, GoT: v.GoT}
 	case token.ARROW:
+		if c := x.recvContract(e.X); c != nil {
+			x.applyRecv(st, e.X, c, true, e.Pos())
+			return x.havocVal(st, "recv", x.typeOf(e))
+		}
 		x.ev(st, e.X)
 		x.vc.note("channel receive: value unconstrained")
 		return x.havocVal(st, "recv", x.typeOf(e))
@@ -933,4 +937,38 @@ func (x *Exec) evElt(st *State, e ast.Expr, t types.Type) Val {
 		}
 	}
 	return x.convertTo(st, x.ev(st, e), t)
+}
+
+// recvContract: a receive from <timer>.C is governed by the package-local pseudo-extern
+// "extern time.Timer.recv()" (ghost timer state machine, DESIGN §5-C02)
+func (x *Exec) recvContract(ch ast.Expr) *Contract {
+	sel, ok := unparen(ch).(*ast.SelectorExpr)
+	if !ok || sel.Sel.Name != "C" {
+		return nil
+	}
+	t := x.typeOf(sel.X)
+	if t == nil || t.String() != "*time.Timer" {
+		return nil
+	}
+	return x.prog.specs.Contracts[x.pkg.PkgPath+"::time.Timer.recv"]
+}
+
+// applyRecv: blocking receive: the requires is an obligation ("the receive cannot block forever");
+// in a select the clause is only enabled when the requires holds (assumed).
+func (x *Exec) applyRecv(st *State, ch ast.Expr, c *Contract, blocking bool, pos token.Pos) {
+	pre := st.clone()
+	env := x.specEnv(st, pre, nil, c.PkgPath)
+	for i, rq := range c.Requires {
+		g := env.boolean(rq.Expr)
+		if blocking {
+			x.assert(st, fmt.Sprintf("recv@time.Timer.%d", i+1), g, "blocking receive from the timer channel can complete: "+rq.Src, pos)
+		}
+		x.assume(st, g)
+	}
+	x.applyModifies(st, c)
+	post := x.specEnv(st, pre, nil, c.PkgPath)
+	for _, en := range c.Ensures {
+		x.assume(st, post.boolean(en.Expr))
+	}
+	x.prog.usedContracts[x.fname+" -> "+c.Key+" [extern]"] = true
 }
